@@ -331,4 +331,26 @@ pub proof fn isum_mono(a: int, b: int, f: spec_fn(int) -> real)
     if a < b { isum_mono(a, b - 1, f); if b <= 0 { } }
 }
 
+
+/// a sum whose terms vanish outside lo..hi is the difference of the two partial sums of the in-range terms
+pub proof fn isum_range_only(n: int, lo: int, hi: int, g: spec_fn(int) -> real, f: spec_fn(int) -> real)
+    requires 0 <= lo <= hi <= n, forall|k: int| 0 <= k < n ==> #[trigger] g(k) == (if lo <= k < hi { f(k) } else { 0real })
+    ensures isum(n, g) == isum(hi, f) - isum(lo, f)
+    decreases n
+{
+    if n > hi { isum_range_only(n - 1, lo, hi, g, f); }
+    else if n > lo { // n == hi > lo
+        isum_range_only(n - 1, lo, n - 1, g, f);
+    } else { // n == hi == lo
+        isum_zero(n, g);
+    }
+}
+pub proof fn isum_le(n: int, f: spec_fn(int) -> real, g: spec_fn(int) -> real)
+    requires forall|k: int| 0 <= k < n ==> #[trigger] f(k) <= g(k)
+    ensures isum(n, f) <= isum(n, g)
+    decreases n
+{
+    if n > 0 { isum_le(n - 1, f, g); }
+}
+
 } // verus!
